@@ -176,7 +176,14 @@ class Ctx:
             jopts.append("-Xss" + xss)
         if dfs:
             jopts.append("-Dtlc2.tool.queue.IStateQueue=StateDeque")
-        cmd = ["java", "-XX:+UseParallelGC"] + jopts + ["-cp", TLA_CP, "tlc2.TLC",
+        gc = "-XX:+UseParallelGC"
+        if workers == 1 and not simulate:
+            # trace validation: many single-worker JVMs side by side; the parallel collector's threads
+            # and default heap sizing made them spend most of their time in the kernel
+            gc = "-XX:+UseSerialGC"
+            if not heap:
+                jopts.append("-Xmx4g")
+        cmd = ["java", gc] + jopts + ["-cp", TLA_CP, "tlc2.TLC",
                "-workers", str(workers), "-metadir", os.path.join(d, "md"), "-noGenerateSpecTE",
                "-deadlock", "-config", cfgfile]
         if coverage:
@@ -453,10 +460,11 @@ def record_and_validate(ctx, world, module, cfg, n, shards=8, name=None, timeout
                 continue
             ev = json.loads(chunk[o["in"]["l"] - 1])
             case = {"w": ev.get("w", world), "k": ev["k"], "in": ev["in"], "exp": o.get("exp")}
-            ctx.violations.append({"sig": "%s:trace" % ev["k"],
-                                   "what": "recorded %s event on input %s: the real code returned %s, the specification expects %s" % (
-                                       ev["k"], readable(ev["in"])[:300], readable(ev.get("obs"))[:300], readable(o.get("exp"))[:300]),
-                                   "case": case, "obs": ev.get("obs")})
+            for sig in (o.get("sigs") or ["%s:trace" % ev["k"]]):
+                ctx.violations.append({"sig": sig,
+                                       "what": "recorded %s event on input %s: the real code returned %s, the specification expects %s" % (
+                                           ev["k"], readable(ev["in"])[:300], readable(ev.get("obs"))[:300], readable(o.get("exp"))[:300]),
+                                       "case": case, "obs": ev.get("obs")})
         validated += len(chunk) - done[-1]["in"]["nbad"]
     ctx.traces += validated
     ctx.evaluations += len(lines)
